@@ -1061,6 +1061,52 @@ def _as_store(t):
 
 
 # ---------------------------------------------------------------------------
+# accumulate-in-a-loop combinators (simplify_exprs, _Composite.make)
+
+def pure_temp(s, sym):
+  """`name = <dotted name / constant>` bound once at the top level: a hoisted
+  temporary (`accept = cls._ACCEPT`), resolved through sym wherever it is read."""
+  return (isinstance(s, ast.Assign) and len(s.targets) == 1 and
+          isinstance(s.targets[0], ast.Name) and
+          s.targets[0].id in sym.sequential and
+          sym.counts.get(s.targets[0].id) == 1 and
+          (dotted(s.value) is not None or isinstance(s.value, ast.Constant)))
+
+
+def combinator_shape(fn, loop, sym):
+  """(accumulator, its initial value, its initialisation, statements after the
+  loop) of an accumulate-in-a-loop combinator; before the loop only the
+  accumulator and hoisted temporaries may be bound."""
+  used = {n.id for n in ast.walk(loop) if isinstance(n, ast.Name)}
+  cands, final, seen_loop = [], [], False
+  for s_ in fn.body:
+    if s_ is loop:
+      seen_loop = True
+      continue
+    if isinstance(s_, ast.Expr) and isinstance(s_.value, ast.Constant):
+      continue
+    if seen_loop:
+      final.append(s_)
+      continue
+    if pure_temp(s_, sym):
+      continue
+    if isinstance(s_, ast.Assign) and len(s_.targets) == 1 and \
+        isinstance(s_.targets[0], ast.Name) and s_.targets[0].id in used:
+      cands.append((s_.targets[0].id, s_.value, s_))
+      continue
+    raise AnalysisError(
+        f"{fn.name}: statement `{src(s_)[:60]}` before the loop is outside "
+        "the combinator schema")
+  if len(cands) != 1:
+    raise AnalysisError(
+        f"{fn.name}: expected one accumulator initialised before the loop, "
+        f"found {[c[0] for c in cands]}")
+  if not final:
+    raise AnalysisError(f"{fn.name}: nothing is returned after the loop")
+  return cands[0][0], cands[0][1], cands[0][2], final
+
+
+# ---------------------------------------------------------------------------
 # world interpreter
 
 class Trace:
